@@ -766,9 +766,13 @@ def gen_consts(repo):
         raise TranslateError("BUFFER_LEN")
     out += "Definition BUFFER_LEN : nat := %s%%nat.\n" % m.group(1)
     s = strip_comments(read(os.path.join(repo, "parser/src/scanner.rs")))
-    m = re.search(r"sk\.mark\.index \+ (\d+) < self\.mark\.index", s)
+    # the whole guard of stale_simple_keys, not only its number: which of the two tests (one line, 1024 characters) apply
+    # where is what the model's stale_simple_keys transcribes
+    m = re.search(r"if sk\.possible\s*&& self\.flow_level == 0\s*&& \(sk\.mark\.line < self\.mark\.line \|\| "
+                  r"sk\.mark\.index \+ (\d+) < self\.mark\.index\)\s*\{", s)
     if not m:
-        raise TranslateError("simple key limit")
+        raise TranslateError("stale_simple_keys: the guard `sk.possible && self.flow_level == 0 && (sk.mark.line < self.mark.line "
+                             "|| sk.mark.index + N < self.mark.index)` was not found in this form")
     m2 = re.search(r"sk\.mark\.index \+ (\d+) < start_mark\.index", s)
     if not m2 or m2.group(1) != m.group(1):
         raise TranslateError("simple key limit of the flow-sequence pair (fetch_value) differs from stale_simple_keys")
